@@ -20,7 +20,9 @@ def _mk(**kw):
 def _summary(a):
     out = dict(k=np.asarray(a.kpts.k), wk=np.asarray(a.kpts.wk), occ_wk=np.asarray(a.occ.wk), f=np.asarray(a.occ.f),
                G=np.asarray(a.G), Sf=np.asarray(a.Sf), r=np.asarray(a.r), Nk=a.kpts.Nk, s=np.asarray(a.s),
-               nactive=[len(x[0]) for x in a.active], kpts_a=np.asarray(a.kpts.a), Nstate=a.occ.Nstate, Nempty=a.occ.Nempty)
+               nactive=[len(x[0]) for x in a.active], kpts_a=np.asarray(a.kpts.a), Nstate=a.occ.Nstate, Nempty=a.occ.Nempty,
+               # read-only quantities that are functions of the inputs (computed on the fly or remembered: either way those of the current inputs)
+               Omega=float(a.Omega), dV=float(a.dV), Ns=int(a.Ns), Natoms=int(a.Natoms))
     return out
 
 
@@ -65,6 +67,15 @@ def _scenarios():
         same = a.kpts.Nk == n_after and np.allclose(a.kpts.k, k_after)
         return ("kmesh=2 Monkhorst-Pack; build(); kpts.trs(); build()", dict(Nk_after_trs=n_after, Nk_after_build=a.kpts.Nk), not same)
 
+    def kpoints_histories_native():
+        """Mutation histories of a bare KPoints object against fresh objects (shared with C15: weights left over from an earlier set, mesh after a reduction, ...)."""
+        from contracts.c15 import kpoints_histories
+
+        bad, info = kpoints_histories()
+        return ("mutation histories of a KPoints object vs fresh objects with the same final inputs", info, bool(bad))
+
+    for _m in ("build", "set:kmesh", "set:wk", "set:kshift", "set:path", "set:Nk", "set:a", "set:gamma_centered"):
+        S[("KPoints", _m)] = kpoints_histories_native
     S[("KPoints", "trs", True)] = trs_persist
     S[("KPoints", "trs")] = trs_persist
 
